@@ -118,8 +118,10 @@ def tuple_sort(sorts):
     if key not in _tuple_sorts:
         name = "Tup_" + "_".join(k.replace(" ", "").replace("(", "").replace(")", "") for k in key)
         dt = z3.Datatype(name)
-        dt.declare("mk", *[(f"f{i}", s) for i, s in enumerate(sorts)])
-        _tuple_sorts[key] = dt.create()
+        dt.declare(f"mk_{name}", *[(f"{name}_f{i}", s) for i, s in enumerate(sorts)])
+        T = dt.create()
+        T.mk = T.constructor(0)
+        _tuple_sorts[key] = T
     return _tuple_sorts[key]
 
 
@@ -129,10 +131,16 @@ _opt_sorts = {}
 def opt_sort(sort):
     key = str(sort)
     if key not in _opt_sorts:
-        dt = z3.Datatype("Opt_" + key.replace(" ", "").replace("(", "_").replace(")", "").replace(",", "_"))
-        dt.declare("none")
-        dt.declare("some", ("val", sort))
-        _opt_sorts[key] = dt.create()
+        nm = "Opt_" + key.replace(" ", "").replace("(", "_").replace(")", "").replace(",", "_")
+        dt = z3.Datatype(nm)
+        dt.declare(f"none_{nm}")
+        dt.declare(f"some_{nm}", (f"val_{nm}", sort))
+        T = dt.create()
+        # unique constructor names keep the SMT-LIB export unambiguous; short aliases for the engine
+        T.none = T.constructor(0)()
+        T.some = T.constructor(1)
+        T.val = T.accessor(1, 0)
+        _opt_sorts[key] = T
     return _opt_sorts[key]
 
 
@@ -266,12 +274,133 @@ def prove(pc, goal, timeout_ms=10000, use_cvc5=True, cvc5_timeout_ms=20000, want
     return v
 
 
-def feasible(pc, timeout_ms=1000):
-    """Quick satisfiability test used to prune paths: False only on a definite unsat."""
-    v, _ = _z3_check(list(pc), timeout_ms)
-    return v.status != "unsat"
+def _has_quantifier(e, memo={}):
+    i = e.get_id()
+    if i in memo:
+        return memo[i]
+    seen = set()
+    stack = [e]
+    found = False
+    while stack:
+        x = stack.pop()
+        j = x.get_id()
+        if j in seen:
+            continue
+        seen.add(j)
+        if z3.is_quantifier(x):
+            found = True
+            break
+        stack.extend(x.children())
+    if len(memo) > 200000:
+        memo.clear()
+    memo[i] = found
+    return found
+
+
+def feasible(pc, timeout_ms=300):
+    """Quick satisfiability test used only to prune paths: False only on a definite unsat of the
+    quantifier-free part of the path condition (sound for pruning; anything it keeps alive is
+    settled by the obligations of that path)."""
+    s = z3.Solver()
+    s.set("timeout", int(timeout_ms))
+    for f in pc:
+        if not _has_quantifier(f):
+            s.add(f)
+    return s.check() != z3.unsat
 
 
 def satisfiable(pc, timeout_ms=5000):
     v, _ = _z3_check(list(pc), timeout_ms, want_model=True)
     return v
+
+
+# ---------------------------------------------------------------------------
+# deferred solving: obligations are exported as SMT-LIB text and solved in a process pool
+
+
+def export_query(pc, goal, axioms=None):
+    """SMT-LIB text of `pc and not goal` with the relevant axioms and the per-function heap facts"""
+    q = list(pc) + [z3.Not(goal)]
+    s = z3.Solver()
+    for f in relevant_axioms(q) if axioms is None else axioms:
+        s.add(f)
+    for f in EXTRA:
+        s.add(f)
+    for f in q:
+        s.add(f)
+    return s.to_smt2()
+
+
+def export_relaxed(pc, goal):
+    """the same query without the axiom defining `cum` (source of candidate counterexamples)"""
+    q = list(pc) + [z3.Not(goal)]
+    if not mentions(q, {"prefix"}):
+        return None
+    s = z3.Solver()
+    for f in AXIOMS:
+        if f is not PREFIX_AXIOM:
+            s.add(f)
+    for f in EXTRA:
+        s.add(f)
+    for f in q:
+        s.add(f)
+    return s.to_smt2()
+
+
+def solve_text(text, relaxed, timeout_ms=10000, cvc5_timeout_ms=20000):
+    """verdict dict for one exported query"""
+    s = z3.Solver()
+    s.set("timeout", int(timeout_ms))
+    t0 = time.time()
+    s.from_string(text)
+    r = s.check()
+    dt = time.time() - t0
+    if r == z3.unsat:
+        return {"status": "discharged", "backend": "z3", "seconds": round(dt, 4)}
+    if r == z3.sat:
+        return {"status": "refuted", "backend": "z3", "seconds": round(dt, 4), "model": _model_str(s)}
+    reason = s.reason_unknown()
+    out = {"status": "undecided", "backend": "z3", "seconds": round(dt, 4), "reason": f"z3: {reason}"}
+    if os.path.exists(CVC5) and cvc5_timeout_ms > 0:
+        v2 = _cvc5_text("(set-logic ALL)\n" + text, cvc5_timeout_ms)
+        out["seconds"] = round(dt + v2.seconds, 4)
+        if v2.status == "unsat":
+            return {"status": "discharged", "backend": "cvc5", "seconds": out["seconds"]}
+        if v2.status == "sat":
+            return {"status": "refuted", "backend": "cvc5", "seconds": out["seconds"], "model": ""}
+        out["reason"] += f"; cvc5: {v2.reason}"
+    if relaxed:
+        s2 = z3.Solver()
+        s2.set("timeout", int(min(timeout_ms, 5000)))
+        s2.from_string(relaxed)
+        if s2.check() == z3.sat:
+            out["candidate_model"] = _model_str(s2)
+            out["reason"] += "; candidate counterexample exists when `cum` is left uninterpreted"
+    return out
+
+
+def _model_str(s):
+    try:
+        m = s.model()
+        return "; ".join(sorted(f"{d.name()} = {m[d]}" for d in m.decls()))[:4000]
+    except Exception:
+        return ""
+
+
+def _cvc5_text(text, timeout_ms):
+    t0 = time.time()
+    with tempfile.NamedTemporaryFile("w", suffix=".smt2", delete=False) as fh:
+        fh.write(text)
+        path = fh.name
+    try:
+        out = subprocess.run([CVC5, "--strings-exp", f"--tlimit={int(timeout_ms)}", path], capture_output=True, text=True, timeout=timeout_ms / 1000 + 5)
+        ans = out.stdout.strip().splitlines()[0] if out.stdout.strip() else ""
+        reason = (out.stderr or out.stdout).strip()[:200]
+    except subprocess.TimeoutExpired:
+        ans, reason = "", "timeout"
+    finally:
+        os.unlink(path)
+    dt = time.time() - t0
+    if ans in ("unsat", "sat"):
+        return Verdict(ans, "cvc5", dt)
+    return Verdict("unknown", "cvc5", dt, None, reason)
